@@ -88,6 +88,10 @@ package types
 //@ (define-fun raisedKeyId ((k enterprise.Key)) Int (kRaised.id k))
 //@ (define-fun acceptedKeyId ((k enterprise.Key)) Int (kAccepted.id k))
 //@ (define-fun poKeyId ((k enterprise.Key)) Int (kPO.id k))
+//@ (define-fun isPOKey ((k enterprise.Key)) Bool ((_ is kPO) k))
+//@ (define-fun isRaisedKey ((k enterprise.Key)) Bool ((_ is kRaised) k))
+//@ (define-fun isAcceptedKey ((k enterprise.Key)) Bool ((_ is kAccepted) k))
+//@ (define-fun isLockedKey ((k enterprise.Key)) Bool ((_ is kLocked) k))
 //@ ; a queue entry carries its own id as an 8-byte value
 //@ (define-fun qval ((b (Slice Int)) (id Int)) Bool (and (not (sl.nil b)) (= (sl.len b) 8) (= (u64dec b) id)))
 //@ (define-fun ENT_QREP ((s (Array enterprise.Key (Slice Int)))) Bool (and
